@@ -102,7 +102,7 @@ def run_config(cfg, shapes, quick, seed, part, full_grid_shapes=()):
             continue
         t_ref = (pb.T0 - 3.25) if sh["tref"] and cfg["n_offsets"] == 0 else None
         data, dd = pb.make_data(n=sh["n"], layout=sh["layout"], err=sh["err"], unit=sh["unit"], t_ref=t_ref, seed=seed,
-                                n_surveys=cfg["n_offsets"] + 1, mixed_units=bool(sh["tref"]))
+                                n_surveys=cfg["n_offsets"] + 1, t_ref_scale=("utc" if sh["n"] % 2 else "tcb"), mixed_units=bool(sh["tref"]))
         problem = pb.ref_problem(dd, dec)
         sigbar = float(np.mean(dd["sig"]))
         theta = theta_grid(quick, seed, sigbar, full=(si in full_grid_shapes))
@@ -173,7 +173,7 @@ def run_case(case, part):
     prior, dec = pb.make_prior(cache=False, **prior_kwargs(cfg))
     t_ref = (pb.T0 - 3.25) if sh["tref"] and cfg["n_offsets"] == 0 else None
     data, dd = pb.make_data(n=sh["n"], layout=sh["layout"], err=sh["err"], unit=sh["unit"], t_ref=t_ref, seed=case.get("seed", 0),
-                            n_surveys=cfg["n_offsets"] + 1, mixed_units=bool(sh["tref"]))
+                            n_surveys=cfg["n_offsets"] + 1, t_ref_scale=("utc" if sh["n"] % 2 else "tcb"), mixed_units=bool(sh["tref"]))
     theta = np.atleast_2d(np.array(case["theta"], dtype=float))
     impl = np.array(tj.TheJoker(prior).marginal_ln_likelihood(data, pb.make_samples(theta), in_memory=True))
     th_ref = theta.copy()
